@@ -5,6 +5,10 @@ namespace ThaiLintModel.C09
 open Lean ThaiLintModel ThaiLintModel.C14
 
 def handle (j : Json) : Json :=
+  if J.strD j "op" "" == "resolve" then
+    let cwd := (J.strsD j "cwd").map String.toList
+    Json.mkObj [("resolved", J.ofStrs ((resolveSpelling cwd (J.boolD j "absolute" false) ((J.strsD j "segs").map String.toList)).map String.ofList))]
+  else
   let above := (J.strsD j "above").map String.toList
   let q := (J.strsD j "inProject").map String.toList
   let root := (J.strsD j "root").map String.toList
